@@ -16,7 +16,7 @@ import (
 // another request".
 
 func c03E2E(w *W) {
-	tran := []string{"inproc", "sim", "simipc"}[w.Choose(simrt.SShape, 3)]
+	tran := []string{"inproc", "sim", "simipc", "tcp", "ipc", "tls+tcp"}[w.Choose(simrt.SShape, 6)]
 	nq := 1 + w.Choose(simrt.SShape, 3)
 	nrep := 1 + w.Choose(simrt.SShape, 2)
 	nrc := 1 + w.Choose(simrt.SShape, 3)
@@ -31,7 +31,7 @@ func c03E2E(w *W) {
 	defer req.Close()
 	mustSet(w, req, mangos.OptionRetryTime, time.Minute)
 	addr := w.Addr(tran)
-	if err := req.Listen(addr); err != nil {
+	if err := w.ListenOn(req, addr); err != nil {
 		w.Failf("HARNESS/listen", "%v", err)
 		return
 	}
@@ -40,7 +40,7 @@ func c03E2E(w *W) {
 	for i := 0; i < nrep; i++ {
 		r := w.Sock("rep")
 		defer r.Close()
-		if err := r.Dial(addr); err != nil {
+		if err := w.DialOn(r, addr); err != nil {
 			w.Failf("HARNESS/dial", "%v", err)
 			return
 		}
